@@ -1014,7 +1014,7 @@ type CallTemplateExpression struct {
 func (cte CallTemplateExpression) IsNode() bool { return true }
 func (cte CallTemplateExpression) Write(w io.Writer, indent int) error {
 	// Rewrite to new call syntax
-	return writeIndent(w, indent, `@`, cte.Expression.Value)
+	return writeIndent(w, indent, `@`, strings.TrimSpace(cte.Expression.Value))
 }
 
 // TemplElementExpression can be used to create and render a template using data.
@@ -1264,7 +1264,9 @@ func (se StringExpression) Write(w io.Writer, indent int) error {
 	if isWhitespace(se.Expression.Value) {
 		se.Expression.Value = ""
 	}
-	return writeIndent(w, indent, `{ `, se.Expression.Value, ` }`)
+	// The expression can include the padding that was found inside the braces, writing it out
+	// as well would make the padding grow every time the file is formatted.
+	return writeIndent(w, indent, `{ `, strings.TrimSpace(se.Expression.Value), ` }`)
 }
 
 // ScriptTemplate is a script block.
